@@ -147,6 +147,9 @@ func (e *env) sendWire(q request) (out outcome, ioErr error) {
 	if !q.NoDepth {
 		fmt.Fprintf(&sb, "Depth: %s\r\n", q.Depth)
 	}
+	if q.Extra != "" {
+		sb.WriteString(q.Extra + "\r\n")
+	}
 	switch q.Framing {
 	case "wire-cl":
 		fmt.Fprintf(&sb, "Content-Length: %d\r\n\r\n%s", len(q.Body), q.Body)
@@ -205,6 +208,9 @@ func (e *env) sendMem(q request) outcome {
 	}
 	if !q.NoDepth {
 		hr.Header.Set("Depth", q.Depth)
+	}
+	if i := strings.Index(q.Extra, ": "); i > 0 {
+		hr.Header.Set(q.Extra[:i], q.Extra[i+2:])
 	}
 	var out outcome
 	rec := httptest.NewRecorder()
